@@ -92,6 +92,15 @@ end Jomini.BinTape
 
 namespace Jomini.BinTape
 
+/-- a token that can stand in value position: plain, and neither the `MixedContainer` marker nor an `Equal`
+(the parser pushes those only behind a marker / in key position) -/
+def BTok.isVal (t : BTok) : Bool := t.isPlain && (t != .mixed) && (t != .equal)
+
+/-- a token that can stand in key position: a scalar or id — plain, not the marker, not `Equal`, not an `Rgb`
+(an rgb block is recognised in value position only) -/
+def BTok.isKey (t : BTok) : Bool :=
+  t.isVal && (match t with | .rgb _ _ _ _ => false | _ => true)
+
 /-- `n` empty containers, as lexemes -/
 def pairsLex : Nat → List Lx
   | 0 => []
@@ -111,7 +120,8 @@ inductive Move : List Lx → List Lx → List Lx → Option (List Lx) → Prop
   | keep (A L1 : List Lx) : Move A L1 (A ++ L1) none
   | eqAfterKey (A : List Lx) (k : BTok) : Move (A ++ [.tok k]) [.equal] (A ++ [.tok k]) none
   | ghost (A : List Lx) : Move A [.open_, .close] A none
-  | rewrite (A : List Lx) (n : Nat) (odd : List Lx) (last : BTok) : 1 ≤ n → (odd = [] ∨ ∃ y : BTok, odd = flatten y) →
+  | rewrite (A : List Lx) (n : Nat) (odd : List Lx) (last : BTok) : 1 ≤ n → last.isKey = true →
+      (odd = [] ∨ ∃ y : BTok, odd = flatten y ∧ y.isPlain = true) →
       Move (A ++ [.open_] ++ pairsLex n ++ odd ++ flatten last) [.equal] (A ++ [.open_] ++ flatten last) (some odd)
 
 /-- a run of moves: from content `A`, reading `L`, to content `C`; `odds` lists the `odd` chunk of every
